@@ -61,8 +61,8 @@ def reqOf (j : Json) : R Req := do
   match kind with
   | "m5" => pure (.pairSetupM5 (← getNat j "client") (← getBool j "ok"))
   | "v3" => pure (.pairVerifyM3 (← getBool j "ok"))
-  | "add" => pure (.addPairing (← clientOpt j "session") (← getNat j "client") (← getBool j "admin"))
-  | "remove" => pure (.removePairing (← clientOpt j "session") (← getNat j "client"))
+  | "add" => pure (.addPairing (← getNat j "client") (← getBool j "admin"))
+  | "remove" => pure (.removePairing (← getNat j "client"))
   | "resource" => pure .resource
   | "other" => pure .other
   | _ => throw s!"unknown req {kind}"
@@ -131,10 +131,16 @@ def handle (j : Json) : R Json := do
       | _ => throw "paired entry must be [client, admin]"
     let steps ← (← getArr j "steps").toList.mapM stepOf
     let info : Info := { display := ['x'], category := 1, mac := [], cfg := 1, paired := false, setupHash := "" }
-    let s := run (init info paired) steps
+    -- verified controller per connection: [[conn, client], ...]
+    let sessions ← (← getArr j "sessions").toList.mapM fun e => do
+      match e with
+      | .arr #[k, c] => pure (← asNat k, ← asNat c)
+      | _ => throw "sessions entry must be [conn, client]"
+    let s := run (init info paired sessions) steps
     pure (Json.mkObj [("log", Json.arr (s.log.reverse.map jobs).toArray),
                       ("paired", Json.arr (s.paired.map fun (c, a) => Json.arr #[Json.num c, Json.bool a]).toArray),
                       ("pending", Json.num (s.execQ.length + s.loopQ.length)),
+                      ("closed", Json.arr (s.closed.map fun (k : Nat) => Json.num k).toArray),
                       ("adv_sf", jopt Json.str (advertisedSf (initialSf info paired) s.log))])
   | "consts" =>
     -- the constants the model fixes, for comparison with the ones in the source
